@@ -295,6 +295,33 @@ static void dump_data(Solver& S)
 #endif
 }
 
+// the KKT object's own state: scalings and the assembled matrix with the permutation undone (lower triangle by rows)
+static void dump_kkt(Solver& S)
+{
+    auto& K = S.m_kkt; auto& d = S.m_data;
+    out("kkt.rho", fmt(K.m_rho)); out("kkt.delta", fmt(K.m_delta));
+    out("kkt.s", fmtv(K.m_s)); out("kkt.z_inv", fmtv(K.m_z_inv));
+    out("kkt.s_lb", fmtv(K.m_s_lb, d.n_lb)); out("kkt.z_lb_inv", fmtv(K.m_z_lb_inv, d.n_lb));
+    out("kkt.s_ub", fmtv(K.m_s_ub, d.n_ub)); out("kkt.z_ub_inv", fmtv(K.m_z_ub_inv, d.n_ub));
+#if BACKEND == 0
+    std::ostringstream os; os << d.n;
+    for (isize i = 0; i < d.n; i++) for (isize j = 0; j <= i; j++) os << " " << fmt(K.kkt_mat(i, j));
+    out("kkt.K", os.str());
+#else
+    isize nk = K.kkt_size();
+    Mat<T> D = Mat<T>::Zero(nk, nk);
+    for (isize j = 0; j < K.PKPt.outerSize(); j++)
+        for (isize k = K.PKPt.outerIndexPtr()[j]; k < K.PKPt.outerIndexPtr()[j + 1]; k++) {
+            isize i = K.PKPt.innerIndexPtr()[k];
+            D(i, j) += K.PKPt.valuePtr()[k];
+            if (i != j) D(j, i) += K.PKPt.valuePtr()[k];
+        }
+    std::ostringstream os; os << nk;
+    for (isize i = 0; i < nk; i++) for (isize j = 0; j <= i; j++) os << " " << fmt(D(K.ordering.inv(i), K.ordering.inv(j)));
+    out("kkt.K", os.str());
+#endif
+}
+
 static void dump_result(Solver& S, Status st)
 {
     const Result<T>& r = S.result();
@@ -381,7 +408,7 @@ static std::string run_case(const std::vector<std::string>& toks, size_t b, size
                 S->update(oP, oc, oA, ob, oG, oh, olb, oub, reuse);
                 out("op", std::string("update ") + (reuse ? "1" : "0"));
             }
-            if (S->m_setup_done) dump_data(*S);
+            if (S->m_setup_done) { dump_data(*S); if (op == "SETUP") dump_kkt(*S); }
             opno++;
             continue;
         }
@@ -394,6 +421,7 @@ static std::string run_case(const std::vector<std::string>& toks, size_t b, size
             dump_result(*S, st);
             out("fact_calls", std::to_string(vhook::fact_calls()));
             out("trace", g_trace);
+            if (S->m_setup_done) dump_kkt(*S);
 #if SCALAR == 0
             out("nonfinite", std::to_string((int) xr::g().nonfinite_arith));
 #endif
